@@ -65,6 +65,10 @@ def run(chk: core.Check, tier: str, seed: int) -> None:
     t1 = list(gen.short_strings(ALPHA, 2)) + rng.sample(texts, 1200 if tier == "quick" else 30000)
     common.t1_check(chk, [t for t in t1 if len(t) <= 60], "c04_t1")
     recs = [impl.rec_compile(jp, q) for q in texts]
+    from .. import probes  # noqa: PLC0415
+    bl = [("bl", ["L"], "L")]
+    bl_env = probes.make_env(jp, bl, [])
+    recs += [impl.rec_compile(jp, q, env=bl_env, extra={"reg": probes.reg_records(bl)}) for q in corpus.logical_param_skeletons(rng)]
     for r in recs:
         chk.nontrivial.add(tuple(r["q"]))
     chk.sample({"text": core.dec_text(recs[777]["q"]), "compile": recs[777]["out"]})
